@@ -480,6 +480,21 @@ fn main() {
                 if reached.is_empty() {
                     break;
                 }
+                // every third random plan is an "overtake": two consecutive hits of one site, the earlier one held long, the
+                // later one briefly, so that the party that arrived second leaves the window first
+                if r.chance(1, 3) {
+                    let cands: Vec<u32> = reached.iter().copied().filter(|&s| hits[s as usize] >= 2).collect();
+                    if !cands.is_empty() {
+                        let s = *r.pick(&cands);
+                        let k = r.range(1, (hits[s as usize] - 1).min(a.k.max(4)) as u64) as usize;
+                        let short = *r.pick(&[50u64, 200, 700]);
+                        plans.push(vec![
+                            PlanEntry { site: s, k, us: 3000, flags: if def.fire { hook::F_FIRE } else { 0 } },
+                            PlanEntry { site: s, k: k + 1, us: short, flags: 0 },
+                        ]);
+                        continue;
+                    }
+                }
                 let n = r.range(2, 4) as usize;
                 let mut p = Vec::new();
                 for _ in 0..n {
